@@ -20,9 +20,23 @@ SCHEME_RE = re.compile(r"^[A-Za-z][A-Za-z0-9+.\-]*:")
 class _Collector(HTMLParser):
     def __init__(self):
         super().__init__(convert_charrefs=True)
-        self.links = []     # (tag, attr, value, in_svg, line)
+        self.links = []     # (tag, attr, value, in_svg, text just before the tag)
         self.ids = set()
         self._svg = 0
+        self._text = ""
+        self._starts = [0]
+
+    def set_text(self, text):
+        self._text = text
+        self._starts = [0]
+        for i, ch in enumerate(text):
+            if ch == "\n":
+                self._starts.append(i + 1)
+
+    def before(self, n=40):
+        line, col = self.getpos()
+        pos = self._starts[line - 1] + col if line - 1 < len(self._starts) else 0
+        return " ".join(self._text[max(0, pos - n):pos].split())
 
     def handle_starttag(self, tag, attrs):
         if tag == "svg":
@@ -33,7 +47,7 @@ class _Collector(HTMLParser):
             if k in ("id",) or (k == "name" and tag == "a"):
                 self.ids.add(v)
             if k in URL_ATTRS:
-                self.links.append((tag, k, v, self._svg > 0, self.getpos()[0]))
+                self.links.append((tag, k, v, self._svg > 0, self.before()))
 
     def handle_startendtag(self, tag, attrs):
         self.handle_starttag(tag, attrs)
@@ -48,7 +62,9 @@ class _Collector(HTMLParser):
 def parse_html(path):
     c = _Collector()
     try:
-        c.feed(pathlib.Path(path).read_text(encoding="utf8", errors="replace"))
+        text = pathlib.Path(path).read_text(encoding="utf8", errors="replace")
+        c.set_text(text)
+        c.feed(text)
         c.close()
     except Exception:  # noqa  (a page the parser chokes on has no judged links)
         pass
@@ -91,7 +107,13 @@ def walk(doc_root, search=True):
             cache[p] = parse_html(p)
         return cache[p]
 
-    def judge(src_rel, base_dir, attr, url, in_svg, kind):
+    def judge(src_rel, base_dir, attr, url, in_svg, kind, before=""):
+        n0 = len(problems)
+        judge1(src_rel, base_dir, attr, url, in_svg, kind)
+        for pr in problems[n0:]:
+            pr["before"] = before
+
+    def judge1(src_rel, base_dir, attr, url, in_svg, kind):
         stats["links"] += 1
         u = url.strip()
         if u == "" or u == "#":
@@ -145,8 +167,8 @@ def walk(doc_root, search=True):
             continue        # copied verbatim, not written by FORD's templates
         stats["pages"] += 1
         c = parsed(p)
-        for tag, attr, val, in_svg, line in c.links:
-            judge(rel, p.parent, f"{tag}@{attr}", val, in_svg, "svg" if in_svg else "html")
+        for tag, attr, val, in_svg, before in c.links:
+            judge(rel, p.parent, f"{tag}@{attr}", val, in_svg, "svg" if in_svg else "html", before)
     db = root / "search" / "search_database.json"
     if db.is_file():
         txt = db.read_text(encoding="utf8")
